@@ -134,4 +134,11 @@ theorem C04_source (D : Derive) (tg : Target) (md : Modes) (h : D.WF) (s : Name)
   ⟨fun hm => by rw [T.fromStrFn_eq D tg md h hm s]; exact C04_fromStr D h _ s,
    fun hm => by rw [T.fromStrTrait_eq D tg md h hm s]; exact C04_fromStr D h _ s⟩
 
+/-- with pairwise distinct names the translated `from_str` inverts the translated `as_str` -/
+theorem C04_source_roundtrip (D : Derive) (tg : Target) (md : Modes) (h : D.WF) (ht : tg.WF)
+    (hd : D.sem.names.Pairwise (· ≠ ·)) (ha : md.asStr ≠ .auto) (hf : md.fromStrFn ≠ .auto) (v : Int) (hv : v ∈ D.vals) :
+    (T.asStr D tg md v).bind (fun n => T.fromStrFn D tg md n) = .ok (some v) := by
+  obtain ⟨n, hs, e, _⟩ := C03_source D tg md h ht ha v hv
+  rw [e, Res.bind_ok, (C04_source D tg md h n).1 hf, C04_fromStr_of_asStr D h hd v n hs]
+
 end ET.Thm
